@@ -327,12 +327,19 @@ Proof.
   destruct (String.eqb (kid_of r) id); [reflexivity | exact IH].
 Qed.
 
+Lemma create_entry_ok_spec r : create_entry_ok r = some (spec_alg (r_key r)).
+Proof.
+  unfold create_entry_ok, spec_alg, alg_table. destruct (r_key r) as [i kind size]. cbn [k_kind k_size].
+  destruct kind; cbn [find fst snd keykind_eqb andb];
+    repeat rewrite (Z.eqb_sym size);
+    repeat match goal with |- context [Z.eqb ?c size] => destruct (Z.eqb c size); cbn [snd orb some] end;
+    reflexivity.
+Qed.
+
 Lemma supported_not_other rs :
   forallb (fun r => some (spec_alg (r_key r))) rs = true -> forallb create_entry_ok rs = true.
 Proof.
-  intro H. rewrite forallb_forall in *. intros r Hr. specialize (H r Hr).
-  unfold create_entry_ok. destruct (r_key r) as [i kind size]. destruct kind; try reflexivity.
-  unfold spec_alg in H. simpl in H. discriminate.
+  intro H. rewrite forallb_forall in *. intros r Hr. rewrite create_entry_ok_spec. apply H. exact Hr.
 Qed.
 
 Lemma spec_active_in cfg rs a : spec_active cfg rs = Some a -> In a rs.
@@ -365,9 +372,10 @@ Proof.
   destruct (spec_active cfg rs) as [a|] eqn:Act; [|discriminate].
   destruct (is_nil (r_chain a) || r_usage_ok a) eqn:U; [|discriminate].
   intro H. inversion H; subst cur. clear H.
-  rewrite (supported_not_other rs A), verify_build_char, B, C. simpl.
-  rewrite forallb_true.
   assert (Ha : In a rs) by (eapply spec_active_in; exact Act).
+  assert (Hne : is_nil rs = false) by (destruct rs; [contradiction | reflexivity]).
+  rewrite (supported_not_other rs A), Hne, verify_build_char, B, C. simpl.
+  rewrite forallb_true.
   assert (Hal : exists alg, spec_alg (r_key a) = Some alg).
   { rewrite forallb_forall in A. specialize (A a Ha). destruct (spec_alg (r_key a)); [eexists; reflexivity | discriminate]. }
   destruct Hal as [alg Hal].
@@ -393,6 +401,7 @@ Lemma load_sound cfg f st :
 Proof.
   unfold load, keystore_of. destruct f as [|rs]; [discriminate|].
   destruct (forallb create_entry_ok rs) eqn:CE; [|discriminate].
+  destruct (is_nil rs) eqn:Hne; [discriminate|].
   rewrite verify_build_char, forallb_true, andb_true_r.
   destruct (forallb chain_fine rs) eqn:B; simpl; [|discriminate].
   destruct (distinct (map kid_of rs)) eqn:C; simpl; [|discriminate].
@@ -502,9 +511,11 @@ Qed.
 
 Lemma ckey_eqb_eq a b : ckey_eqb a b = true -> a = b.
 Proof.
-  destruct a as [[[a1 a2] a3] a4], b as [[[b1 b2] b3] b4]. simpl.
-  rewrite !andb_true_iff. intros [[[H1 H2] H3] H4].
-  apply String.eqb_eq in H1, H2, H3, H4. subst. reflexivity.
+  destruct a as [[[[a1 a2] a3] a4] a5], b as [[[[b1 b2] b3] b4] b5]. simpl.
+  rewrite !andb_true_iff. intros [[[[H1 H2] H3] H4] H5].
+  apply String.eqb_eq in H1, H2, H3, H4. subst.
+  destruct a5 as [x|], b5 as [y|]; simpl in H5; try discriminate; [|reflexivity].
+  apply keyref_eqb_eq in H5. subst. reflexivity.
 Qed.
 
 Lemma cache_get_in k c t : cache_get k c = Some t -> In (k, t) c.
@@ -611,14 +622,17 @@ Proof.
 Qed.
 
 Section Histories.
+  Variable fixed : bool.           (* is the repair of C16-F1 in place *)
   Variable c : config.
   Variable A : list raw_entry.     (* the active entries of all accepted files of the run *)
-  Hypothesis no_clash : reuse_allowed c = true -> forall a b, In a A -> In b A -> clash a b = false.
+  Hypothesis no_clash :
+    fixed = false -> reuse_allowed c = true -> forall a b, In a A -> In b A -> clash a b = false.
 
   Definition cached_ok (seen : list token) (e : ckey * token) : Prop :=
     let '(key, t) := e in
     reuse_allowed c = true /\ In t seen /\
-    exists sub b, key = (t_kid t, t_alg t, issuer c, sub) /\ claims_ok c sub (t_claims t) = true /\
+    exists sub b, key = (t_kid t, t_alg t, issuer c, sub, if fixed then Some (r_key b) else None) /\
+                  claims_ok c sub (t_claims t) = true /\
                   In b A /\ kid_of b = t_kid t /\ spec_alg (r_key b) = Some (t_alg t) /\
                   t_key t = Priv (r_key b) /\ t_typ t = "JWT".
 
@@ -635,21 +649,23 @@ Section Histories.
 
   Lemma exec_ok cur seen w sub now :
     winv cur seen w ->
-    exists w' t, exec c w sub now = (w', Ok t) /\
+    exists w' t, exec fixed c w sub now = (w', Ok t) /\
                  token_ok c cur seen sub now t (verifies t (jwks c w')) = true /\
                  winv cur (t :: seen) w'.
   Proof.
     intros [Hst Hin [alg Halg] HA Hjti Hcache]. destruct cur as [a rs]. simpl in *.
-    unfold exec. rewrite Hst. cbn [state_of fst snd s_jwk s_key s_pub spec_jwk j_kid j_alg]. rewrite Halg.
-    destruct (if c_cache c then cache_get (kid_of a, alg, issuer c, sub) (w_cache w) else None) as [t|] eqn:Hit.
+    unfold exec. rewrite Hst. cbn [state_of fst snd s_jwk s_key s_pub spec_jwk j_kid j_alg j_key keyref_of]. rewrite Halg.
+    set (ck := (kid_of a, alg, issuer c, sub, if fixed then Some (r_key a) else None) : ckey).
+    destruct (if c_cache c then cache_get ck (w_cache w) else None) as [t|] eqn:Hit.
     - (* reuse *)
-      assert (Hg : cache_get (kid_of a, alg, issuer c, sub) (w_cache w) = Some t)
+      assert (Hg : cache_get ck (w_cache w) = Some t)
         by (destruct (c_cache c); [exact Hit | discriminate]).
       apply cache_get_in in Hg. pose proof (Hcache _ Hg) as Hc. simpl in Hc.
       destruct Hc as (Hre & Hseen & sub' & b & Hkey & Hcl & HbA & Hbk & Hbalg & Hbkey & Htyp).
-      inversion Hkey as [[K1 K2 K3]]. subst sub'.
+      unfold ck in Hkey. inversion Hkey as [[K1 K2 K3 K4]]. subst sub'.
       assert (Hsame : r_key b = r_key a).
-      { pose proof (no_clash Hre a b HA HbA) as Hn. unfold clash in Hn.
+      { destruct fixed eqn:Hfx; [inversion K4; reflexivity|].
+        pose proof (no_clash eq_refl Hre a b HA HbA) as Hn. unfold clash in Hn.
         rewrite Hbk, <- K1, String.eqb_refl, Hbalg, Halg, <- K2 in Hn. simpl in Hn. rewrite String.eqb_refl in Hn.
         simpl in Hn. apply negb_false_iff in Hn. apply keyref_eqb_eq in Hn. symmetry. exact Hn. }
       exists w, t. split; [reflexivity|].
@@ -705,7 +721,7 @@ Section Histories.
           destruct (reuse_allowed c) eqn:Hre.
           -- destruct He as [<-|He].
              ++ simpl. split; [first [exact Hre | reflexivity]|]. split; [left; reflexivity|].
-                exists sub, a. unfold t. simpl. repeat split; try reflexivity; try assumption.
+                exists sub, a. unfold t, ck. simpl. repeat split; try reflexivity; try assumption.
              ++ pose proof (Hcache _ He) as Hc'. destruct e as [k' t']. simpl in *.
                 destruct Hc' as (H1 & H2 & H3). split; [exact H1|]. split; [right; exact H2 | exact H3].
           -- pose proof (Hcache _ He) as Hc'. destruct e as [k' t']. simpl in *.
@@ -715,7 +731,7 @@ Section Histories.
   Lemma steps_ok ops : forall cur seen w,
     winv cur seen w ->
     incl (accepted_of (c_keyid c) (files_of ops)) A ->
-    obs_ok c cur seen ops (steps c w ops) = true.
+    obs_ok c cur seen ops (steps fixed c w ops) = true.
   Proof.
     induction ops as [|o ops IH]; intros cur seen w Hw Hincl; [reflexivity|].
     destruct o as [sub now | f |].
@@ -774,17 +790,17 @@ Proof.
   rewrite (Z.leb_antisym second t). unfold second. destruct (1000000000 <? t)%Z; reflexivity.
 Qed.
 
-(** every run outside the guard of C16-F1 meets the specification *)
-Theorem run_meets_spec c f ops :
-  guard_F1 c f ops = false ->
-  run_ok c f ops (fst (run c f ops)) (snd (run c f ops)) = true.
+(** every run outside the guard of C16-F1 meets the specification; with the repair, every run *)
+Theorem run_meets_spec_gen fixed c f ops :
+  (fixed = false -> guard_F1 c f ops = false) ->
+  run_ok c f ops (fst (run fixed c f ops)) (snd (run fixed c f ops)) = true.
 Proof.
   intro G. unfold run, run_ok. rewrite create_char. destruct (ttl_valid c); [|reflexivity].
   destruct (load (c_keyid c) f) as [st| |] eqn:L.
   - apply load_sound in L as [cur [Hacc ->]]. rewrite Hacc. cbn [fst snd].
     destruct cur as [a rs]. destruct (spec_accept_good _ _ _ _ Hacc) as [Hin Halg].
     apply steps_ok with (A := accepted_of (c_keyid c) (f :: files_of ops)).
-    + intro Hre. apply guard_no_clash; assumption.
+    + intros Hfx Hre. apply guard_no_clash; [apply G; exact Hfx | exact Hre].
     + constructor; simpl; try assumption.
       * reflexivity.
       * rewrite Hacc. left. reflexivity.
@@ -796,6 +812,15 @@ Proof.
   - destruct (spec_accept (c_keyid c) f) eqn:Hacc; [|reflexivity].
     apply load_complete in Hacc. rewrite Hacc in L. discriminate.
 Qed.
+
+Theorem run_meets_spec c f ops :
+  guard_F1 c f ops = false ->
+  run_ok c f ops (fst (run false c f ops)) (snd (run false c f ops)) = true.
+Proof. intro G. apply run_meets_spec_gen. intros _. exact G. Qed.
+
+Theorem run_meets_spec_fixed c f ops :
+  run_ok c f ops (fst (run true c f ops)) (snd (run true c f ops)) = true.
+Proof. apply run_meets_spec_gen. discriminate. Qed.
 
 (* ------------------------------------------------------------------ readable corollaries *)
 
@@ -891,10 +916,10 @@ Definition f1_ops : list op :=
 Lemma F1_refuted :
   exists c f ops t,
     guard_F1 c f ops = true /\
-    nth_error (snd (run c f ops)) 3 = Some (XToken t false) /\
-    nth_error (snd (run c f ops)) 2 = Some (XJwks [spec_jwk (f1_entry 11)]) /\
+    nth_error (snd (run false c f ops)) 3 = Some (XToken t false) /\
+    nth_error (snd (run false c f ops)) 2 = Some (XJwks [spec_jwk (f1_entry 11)]) /\
     t_key t = Priv (r_key (f1_entry 10)) /\
-    run_ok c f ops (fst (run c f ops)) (snd (run c f ops)) = false.
+    run_ok c f ops (fst (run false c f ops)) (snd (run false c f ops)) = false.
 Proof.
   exists f1_cfg, (PemOk [f1_entry 10]), f1_ops.
   eexists. vm_compute. repeat split.
@@ -916,10 +941,40 @@ Definition nv_ops : list op :=
 Lemma nonvacuous :
   guard_F1 nv_cfg (PemOk [nv_entry 3 "old"]) nv_ops = false /\
   exists t1 t2,
-    snd (run nv_cfg (PemOk [nv_entry 3 "old"]) nv_ops) =
+    snd (run false nv_cfg (PemOk [nv_entry 3 "old"]) nv_ops) =
       [XToken t1 true; XToken t1 true; XDone; XToken t2 true;
        XJwks [spec_jwk (nv_entry 5 "other"); spec_jwk (nv_entry 4 "new"); spec_jwk (nv_entry 3 "old")]] /\
     t_kid t1 = "old" /\ t_kid t2 = "new" /\ t_alg t2 = "PS384" /\
     mget "sub" (t_claims t2) = Some (VStr "alice") /\ mget "who" (t_claims t2) = Some (VStr "alice") /\
     mget "exp" (t_claims t2) = Some (VInt 1093%Z).
 Proof. split; [vm_compute; reflexivity|]. eexists. eexists. vm_compute. repeat split. Qed.
+
+(* ------------------------------------------------------------------ no panic is reachable any more *)
+
+(** since the key store rejects empty stores and unsupported key sizes (fixes for
+    C19-F1/F2) neither [ks.Entries()[0]] nor [Entry.JWK] can panic in load *)
+Lemma load_no_panic cfg f : load cfg f <> Panic.
+Proof.
+  unfold load, keystore_of. destruct f as [|rs]; [discriminate|].
+  destruct (forallb create_entry_ok rs) eqn:CE; [|discriminate].
+  destruct (is_nil rs) eqn:Hne; [discriminate|].
+  rewrite verify_build_char, forallb_true, andb_true_r.
+  destruct (forallb chain_fine rs && distinct (map kid_of rs)); [|discriminate].
+  assert (Hall : forallb (fun r => some (spec_alg (r_key r))) rs = true).
+  { apply forallb_forall. intros r Hr. rewrite <- create_entry_ok_spec.
+    rewrite forallb_forall in CE. apply CE. exact Hr. }
+  assert (Fin : forall a, In a rs ->
+    (if negb (is_nil (e_chain (entry_of a))) && negb (e_usage_ok (entry_of a)) then @Err state else
+     match entries_jwks (map entry_of rs) with
+     | Ok keys => match entry_jwk (entry_of a) with
+                  | Ok j => Ok {| s_jwk := j; s_key := Priv (e_key (entry_of a)); s_pub := keys |}
+                  | Err => Err | Panic => Panic end
+     | Err => Err | Panic => Panic end) <> Panic).
+  { intros a Ha. destruct (negb (is_nil (e_chain (entry_of a))) && negb (e_usage_ok (entry_of a))); [discriminate|].
+    rewrite entries_jwks_char, Hall, entry_jwk_char.
+    rewrite forallb_forall in Hall. specialize (Hall a Ha). destruct (spec_alg (r_key a)); discriminate. }
+  destruct (String.eqb cfg "").
+  - destruct rs as [|r rest]; [discriminate|]. simpl map. exact (Fin r (or_introl eq_refl)).
+  - rewrite get_key_char. destruct (find (fun r => String.eqb (kid_of r) cfg) rs) as [a|] eqn:F; simpl; [|discriminate].
+    apply find_some in F as [Ha _]. exact (Fin a Ha).
+Qed.
